@@ -52,7 +52,7 @@ def generate(rng, n, tier):
             ts[1] = ts[0]; ms[1] = ms[0]                      # zero elapsed time at the first end
             if rng.random() < 0.5:
                 pts[1] = list(pts[0])
-        out.append({'pts': pts, 'z': zs, 't': ts, 'ms': ms, 'preds': rng.random() < 0.2,
+        out.append({'pts': pts, 'z': zs, 't': ts, 'ms': ms, 'preds': rng.random() < 0.2, 'parent': rng.choice([None, None, None, [2, 1], [1, 0], [0, 2]]), 'how': rng.choice(['extract', 'slice']),
                     't0': rng.choice([0, 0, 0, 4107542400 - 110, 951782400 - 105, 4107542400 + 86400 * 100])})      # ordinary instants, or around the end of February 2100 / 2000
     # a few long tracks (more than 256 fixes: beyond the small-integer cache of CPython, and long enough for an index arithmetic slip to show);
     # they go through the oracle only (the model tie carries the full distance matrix)
@@ -85,6 +85,16 @@ def run_impl(case):
     ci = sys.modules['tracklib.algo.cinematics']
     an = sys.modules['tracklib.algo.analytics']
     tr = mktrack(case)
+    if case.get('parent'):
+        # the track is a sub-track (extract / slice) of a longer one, taken before anything was computed; the features are then computed on the
+        # parent first: what is computed on the sub-track afterwards is about the sub-track
+        a, b = case['parent']
+        full = dict(case, pts=[[-50.0 - 3 * i, 7.0] for i in range(a)][::-1] + case['pts'] + [[case['pts'][-1][0] + 11.0 * (i + 1), case['pts'][-1][1] - 2.0] for i in range(b)],
+                    z=[0.0] * a + case['z'] + [0.0] * b, t=[case['t'][0] - 10 * (a - i) for i in range(a)] + case['t'] + [case['t'][-1] + 10 * (i + 1) for i in range(b)],
+                    ms=[0] * a + case['ms'] + [0] * b)
+        P = mktrack(full)
+        tr = P.extract(a, a + len(case['pts']) - 1) if case.get('how', 'extract') == 'extract' else P[a:a + len(case['pts'])]
+        ci.computeAbsCurv(P); P.estimate_speed()
     n = tr.size()
     pos0 = [(o.position.getX(), o.position.getY(), o.position.getZ(), str(o.timestamp), o.timestamp.ms) for o in tr]
     if case.get('preds'):                         # the leg lengths are already on the track under the name the computation uses, derived with the
